@@ -83,13 +83,33 @@ def gen_readout(rng, i):
     k = rng.choice([1, 1, 2, 2, 3, 4])
     xl = 8 if rule == "rls" else 2
     calls = [{"X": rows(rng, T, idim, xl, 2), "Y": rows(rng, T, odim, 4, 2)} for T in lens]
+    # histories with train calls that RAISE between / before the valid ones: targets forgotten, wrong target width,
+    # wrong input width.  Such a call performs no update and must not draw from the learning-rate schedule.
+    nfail = 0
+    if rng.random() < 0.35:
+        for _ in range(rng.choice([1, 1, 2])):
+            pos = rng.randint(0, len(calls))
+            valid_before = any(not cl.get("fail") for cl in calls[:pos])
+            kind = rng.choice(["noY", "noY", "ywidth", "xwidth"]) if valid_before else "noY"
+            T = rng.choice([1, 2, 3])
+            bad = {"fail": kind,
+                   "X": rows(rng, T, idim + (1 if kind == "xwidth" else 0), xl, 2),
+                   "Y": None if kind == "noY" else rows(rng, T, odim + (1 if kind == "ywidth" else 0), 4, 2)}
+            calls.insert(pos, bad)
+            nfail += 1
     c = {"kind": rule, "cls": cls, "bias": rng.random() < 0.6, "idim": idim, "odim": odim, "k": k, "calls": calls}
     if rule == "rls":
         c["alpha"] = rng.choice([Fraction(1, 4), Fraction(1, 2), Fraction(1), Fraction(2), Fraction(4), Fraction(3, 4)])
     else:
         rate = lambda: rng.choice([Fraction(1, 8), Fraction(1, 16), Fraction(1, 32), Fraction(3, 32), Fraction(1, 64)])
-        if rng.random() < 0.6:
-            c["alpha"] = [rate() for _ in range(sum(lens) + 2)]      # explicit schedule (passed as an iterator)
+        if nfail or rng.random() < 0.6:
+            # explicit schedule (passed as an iterator), consecutive entries distinct so that a shifted cursor shows
+            sch = []
+            while len(sch) < sum(lens) + 3 * nfail + 2:
+                v = rate()
+                if not sch or v != sch[-1]:
+                    sch.append(v)
+            c["alpha"] = sch
         else:
             c["alpha"] = rate()
     return c
@@ -147,8 +167,21 @@ def run_readout(c):
     node, counter = make_readout(c)
     obs = []
     for call in c["calls"]:
-        out = node.train(farr(call["X"]), farr(call["Y"]), learn_every=c["k"])
-        obs.append({"out": np.asarray(out).tolist(), "W": np.asarray(node.Wout).tolist(),
+        raised = None
+        if call.get("fail"):
+            try:
+                out = node.train(farr(call["X"]), None if call["Y"] is None else farr(call["Y"]), learn_every=c["k"])
+            except Exception as e:
+                raised, out = repr(e), []
+        else:
+            out = node.train(farr(call["X"]), farr(call["Y"]), learn_every=c["k"])
+        if node.Wout is None:          # a call that failed before the node was ever initialised: still the fresh node
+            n_in = c["idim"] + (1 if c["bias"] else 0)
+            obs.append({"out": [], "W": [[0.0] * c["odim"]] * c["idim"], "b": [0.0] * c["odim"],
+                        "P": [[(1.0 / ff(c["alpha"])) if i == j else 0.0 for j in range(n_in)] for i in range(n_in)] if c["kind"] == "rls" else [],
+                        "cur": counter.n if counter is not None else None, "raised": raised, "fresh": True})
+            continue
+        obs.append({"raised": raised, "out": np.asarray(out).tolist(), "W": np.asarray(node.Wout).tolist(),
                     "b": np.asarray(node.bias).ravel().tolist(),
                     "P": np.asarray(node.P).tolist() if c["kind"] == "rls" else [],
                     "cur": counter.n if counter is not None else None})
@@ -181,13 +214,21 @@ def run_impl(c):
 
 
 # ------------------------------------------------------------------------------------------ Gallina terms
+def qcall(call):
+    if call.get("fail"):
+        return "(true, [])"
+    return "(false, %s)" % qpairs(call)
+
+
 def qpairs(call):
     return coqlist(["(%s, %s)" % (qvec(x), qvec(y)) for x, y in zip(call["X"], call["Y"])])
 
 
 def to_coq(c, o):
     if c["kind"] in ("rls", "lms"):
-        calls = coqlist([qpairs(call) for call in c["calls"]])
+        if any(call.get("fail") and ob["raised"] is None for call, ob in zip(c["calls"], o["calls"])):
+            return "true"      # an invalid call was accepted: nothing is stated about what it does (not counted as non-trivial)
+        calls = coqlist([qcall(call) for call in c["calls"]])
         os_ = coqlist(["{| o_out := %s; o_W := %s; o_b := %s; o_P := %s; o_cur := %s |}" %
                        (qmat(ob["out"]), qmat(ob["W"]), qvec(ob["b"]), qmat(ob["P"]),
                         "None" if ob["cur"] is None else "(Some %s)" % nat(ob["cur"])) for ob in o["calls"]])
@@ -209,13 +250,15 @@ def to_coq(c, o):
 
 
 def n_updates(c):
-    return sum(len(range(0, len(call["X"]), c["k"])) for call in c["calls"])
+    return sum(len(range(0, len(call["X"]), c["k"])) for call in c["calls"] if not call.get("fail"))
 
 
 def nontrivial(c, o):
     if c["kind"] == "ip":
         learn = len(o["rec"]) - c["warmup"] * len(c["seqs"])
         return learn >= 2 and any(abs(v - 1.0) > 1e-12 for v in o["a"])
+    if any(call.get("fail") and ob["raised"] is None for call, ob in zip(c["calls"], o["calls"])):
+        return False
     last = o["calls"][-1]
     return n_updates(c) >= 2 and any(v != 0 for r in last["W"] for v in r)
 
@@ -238,14 +281,17 @@ def correspondence(ctx):
             keep.append({"scenario": jsonable(c), "impl_error": "non-finite observation: %r" % (e,)})
             continue
         keep.append({"scenario": jsonable(c), "observed": jsonable(o)})
-        tag = "ip/%s/mu%s0" % (c["activation"], "!=" if c["mu"] != 0 else "=") if c["kind"] == "ip" else "%s/%s" % (c["cls"], c["kind"])
+        tag = "ip/%s/mu%s0" % (c["activation"], "!=" if c["mu"] != 0 else "=") if c["kind"] == "ip" else \
+            "%s/%s%s" % (c["cls"], c["kind"], "/with-failing-calls" if any(cl.get("fail") for cl in c["calls"]) else "")
         dist[tag] = dist.get(tag, 0) + 1
         if nontrivial(c, o):
             nt.add(repr(jsonable(c)))
     failing, err = core.run_cases(ctx.pid, IMPORTS, terms, chunk=40)
     return {"evaluations": len(cases), "distinct_nontrivial": len(nt),
             "rule": "seeded scenarios: RLS / LMS / FORCE(rule) nodes, bias on/off, input dim 1-3, output dim 1-2, learn_every 1-4, "
-                    "1-3 successive train calls of 1-6 steps (outputs, Wout, bias, P, schedule cursor compared after every call), "
+                    "1-3 successive train calls of 1-6 steps (outputs, Wout, bias, P, schedule cursor compared after every call), in about a third "
+                    "of them 1-2 RAISING calls (targets forgotten, wrong target / input width) inserted before / between the valid ones "
+                    "(model: no update, cursor unchanged; non-constant schedules), "
                     "LMS alpha scalar or an explicit iterator schedule; IPReservoir tanh/sigmoid, 1-3 units, 1-3 sequences, epochs 1-3, "
                     "warmup 0-1 (every reservoir call compared: order, pre-activation state, a, b). non-trivial = at least two "
                     "learning updates and a non-zero learned Wout (readouts) / a changed gain (IP); distinct by scenario text",
@@ -299,6 +345,23 @@ def _judge_readout(c):
     cur = 0
     for ci, call in enumerate(c["calls"]):
         ob = o["calls"][ci]
+        if call.get("fail"):
+            if ob["raised"] is None:
+                return None        # accepted instead of rejected: nothing stated here about such a call
+            wf = [[float(v) for v in row] for row in w]
+            expW, expb = (wf[1:], wf[0]) if c["bias"] else (wf, [0.0] * m)
+            if not (close(ob["W"], expW) and close(ob["b"], expb)):
+                return _viol("%s:failed-call-changed-weights" % c["kind"], "train call %d raised (%s) but Wout / bias changed" % (ci, call["fail"]),
+                             c, {"W": expW, "b": expb}, {"W": ob["W"], "b": ob["b"]})
+            if c["kind"] == "rls":
+                eye = [[Fraction(int(i == j)) for j in range(n)] for i in range(n)]
+                Pinv = [[float(v) for v in row] for row in fsolve(A, eye)]
+                if not close(ob["P"], Pinv):
+                    return _viol("rls:failed-call-changed-P", "train call %d raised (%s) but P changed" % (ci, call["fail"]), c, Pinv, ob["P"])
+            elif ob["cur"] is not None and ob["cur"] != cur:
+                return _viol("lms:schedule-consumed-by-failed-call", "train call %d raised (%s) without updating, yet %d learning rate(s) were "
+                             "drawn from the schedule: later updates use shifted rates" % (ci, call["fail"], ob["cur"] - cur), c, cur, ob["cur"])
+            continue
         T = len(call["X"])
         exp_out = []
         for i in range(T):
@@ -348,6 +411,12 @@ def _judge_schedule_kind(c):
     try:
         node, _ = make_readout(c, schedule_as="list")
         for call in c["calls"]:
+            if call.get("fail"):
+                try:
+                    node.train(farr(call["X"]), None if call["Y"] is None else farr(call["Y"]), learn_every=c["k"])
+                except Exception:
+                    pass
+                continue
             node.train(farr(call["X"]), farr(call["Y"]), learn_every=c["k"])
         W = np.asarray(node.Wout).tolist()
     except Exception as e:
@@ -423,8 +492,8 @@ def oracle(ctx, scale=1):
     extra = []
     for c in cases[:ctx.n(40, 200)]:
         if c["kind"] == "rls":
-            X = [x for call in c["calls"] for x in call["X"]]
-            Y = [y for call in c["calls"] for y in call["Y"]]
+            X = [x for call in c["calls"] if not call.get("fail") for x in call["X"]]
+            Y = [y for call in c["calls"] if not call.get("fail") for y in call["Y"]]
             extra.append(dict(c, calls=[{"X": [x], "Y": [y]} for x, y in zip(X, Y)]))
     out, dist = [], {}
     for c in cases + extra:
@@ -434,7 +503,7 @@ def oracle(ctx, scale=1):
             out.append(v)
     return {"evaluations": len(cases) + len(extra), "violations": out, "distribution": dist,
             "rule": "exact (Fraction) batch ridge(lambda=alpha) solution and inverse regularised covariance vs RLS Wout/bias/P after every "
-                    "train call (and after every single step); explicit exact LMS loop with a counted schedule; learn_every gate "
+                    "train call (and after every single step); explicit exact LMS loop with a counted schedule; a raising train call (targets forgotten, wrong widths) leaves Wout/bias/P and the schedule cursor unchanged and the later updates use the right schedule entries; learn_every gate "
                     "i%k==0 and pre-update outputs by an explicit loop; explicit numpy IP loop vs IPReservoir.fit (a, b) and y=f(a*x+b)"}
 
 
